@@ -68,11 +68,16 @@ def generate(rng, tier, index, focus):
     mtier = specgen.choice(rng, ["iso", "iso", "diag", "full"])
     dispersive = bool(mtier != "full" and rng.uniform() < 0.3)
     magnetic = bool(rng.uniform() < 0.2)
+    # in 40% of the dispersive scenes the devices consist of plain (non-dispersive) materials and sit on top of a large
+    # dispersive background object
+    plain_dev = bool(dispersive and rng.uniform() < 0.4)
     # background objects (x >= 1 keeps the probe column free)
     objs = []
-    for i in range(int(rng.integers(0, 3))):
-        box = specgen.rand_box(rng, shape, min_size=1, inner=[[1, shape[0]], [0, shape[1]], [0, shape[2]]])
-        objs.append({"kind": "box", "name": f"bg{i}", "box": box, "material": _mat(rng, specgen.choice(rng, ["iso", mtier]), magnetic=magnetic and rng.uniform() < 0.5), "order": i})
+    for i in range(int(rng.integers(1 if plain_dev else 0, 3))):
+        box = specgen.rand_box(rng, shape, min_size=[max(1, n // 2) for n in shape] if plain_dev else 1, inner=[[1, shape[0]], [0, shape[1]], [0, shape[2]]])
+        # background objects may be dispersive too: a device made of plain materials that covers them must leave *its own*
+        # (zero) pole coefficients in its cells, not the background's
+        objs.append({"kind": "box", "name": f"bg{i}", "box": box, "material": _mat(rng, specgen.choice(rng, ["iso", mtier]), magnetic=magnetic and rng.uniform() < 0.5, dispersive=dispersive and (plain_dev or rng.uniform() < 0.6)), "order": i})
     devices = []
     ndev = int(rng.integers(1, 3))
     x_split = [1, shape[0]] if ndev == 1 else None
@@ -96,7 +101,7 @@ def generate(rng, tier, index, focus):
         elif mode == "continuous":
             mats = {"a": _mat(rng, mtier, dispersive=dispersive and rng.uniform() < 0.5), "b": _mat(rng, mtier, dispersive=dispersive)}
         else:
-            mats = {f"m{j}": _mat(rng, mtier, dispersive=dispersive and rng.uniform() < 0.6) for j in range(int(rng.integers(2, 5)))}
+            mats = {f"m{j}": _mat(rng, mtier, dispersive=dispersive and not plain_dev and rng.uniform() < 0.6) for j in range(int(rng.integers(2, 5)))}
         devices.append({"name": f"dev{i}", "box": box, "voxel": voxel, "mode": "continuous" if mode == "etched" else mode, "etch": mode == "etched", "materials": mats})
     # probe cells: one static cell per device material in the x = 0 column (reference vectors)
     j = 0
@@ -382,6 +387,10 @@ def execute(spec, focus):
     stats["probe_etched"] = sum(1 for dv in devs if dv.get("etch"))
     stats["probe_discrete"] = sum(1 for dv in devs if dv["mode"] == "discrete")
     stats["probe_dispersive"] = int("dispersive_c1" in m0)
+    bg_disp = [o for o in spec["materials"]["objects"] if o["name"].startswith("bg") and o["material"].get("dispersion")]
+    stats["probe_plain_discrete_device_over_dispersive_background"] = sum(
+        1 for dv in devs if dv["mode"] == "discrete" and not any(m.get("dispersion") for m in dv["materials"].values())
+        and any(all(max(a0, b0) < min(a1, b1) for (a0, a1), (b0, b1) in zip(dv["box"], o["box"])) for o in bg_disp))
     stats["probe_components_" + str(ncomp)] = 1
     seen = set()
     viol = [v for v in viol if not (v["monitor"] in seen or seen.add(v["monitor"]))]
